@@ -61,7 +61,15 @@ def gen_plan(seed: int, tier: str) -> dict:
                 idx //= len(outcomes)
         else:
             vec = [r.choice(outcomes + ["ok"] * 6) for _ in range(n)]
-        return {"mode": "coap", "op": r.choice(["read", "read", "write", "subscribe"]), "vec": vec, "pick": r.sample(range(6), n), "reps": r.choice([1, 2]), "ops": []}
+        plan = {"mode": "coap", "op": r.choice(["read", "read", "write", "subscribe"]), "vec": vec, "pick": r.sample(range(6), n), "reps": r.choice([1, 2]), "ops": []}
+        if r.random() < 0.25:
+            # a long string value: the sealed reply of a read exceeds what aiocoap sends in one datagram (1124 bytes) and travels
+            # block-wise; the requester has to collect the blocks
+            plan["big"] = r.choice([300, 1100, 1200, 1200, 2500])
+            plan["op"] = "read"
+            if 3 not in plan["pick"][: len(vec)]:
+                plan["pick"][0] = 3  # the string characteristic
+        return plan
     if x < 0.78:
         if r.random() < 0.8:
             fsize = 8 + seed % 57
@@ -316,6 +324,11 @@ def execute_coap(plan: dict, ch: Chooser) -> dict:
         p = wcoap.make_pairing(rec)
         await p.list_accessories_and_characteristics()
         readable = [c for c in acc.all_chars() if "pr" in c.perms and "pw" in c.perms and c.iid >= 0x100 + 50]
+        if plan.get("big"):
+            for c in readable:
+                if c.fmt == "string":
+                    c.value = ("long string value " * 200)[: plan["big"]]
+                    ctx.probe("coap_long_string_value")
         for rep in range(plan["reps"]):
             chars = [readable[i % len(readable)] for i in plan["pick"]][: len(vec)]
             ids = [(1, c.iid) for c in chars]
